@@ -2024,6 +2024,9 @@ impl ToBitStream for SeekTable {
         self.points
             .iter()
             .try_for_each(|point| match last_offset.as_mut() {
+                // this offset is how a placeholder is stored,
+                // so a defined point cannot use it
+                _ if point.sample_offset() == Some(u64::MAX) => Err(Error::InvalidSeekTablePoint),
                 None => {
                     last_offset = point.sample_offset();
                     w.build(point).map_err(Error::Io)
